@@ -355,3 +355,10 @@ PROPS["C05"]["explanation"] += (' Also under contract (enumerated in full over c
 PROPS["C15"]["explanation"] += (' Also under contract: expression.get_vars / get_params / get_floats / _collect_leaves (exactly the leaves under the expression object\'s own last node, also after the object was extended into a longer expression sharing its operator list).')
 PROPS["C03"]["explanation"] += (' Also under contract: _EpanetRule.generate_control for every premise list of up to four premises joined by AND / OR - the condition tree read has the truth table of EPANET\'s left-to-right premise evaluation (rules.c, evalpremises; stated in the contract, an assumption on the external engine checked by the differential on an INP text with such rules).')
 PROPS["C01"]["explanation"] += (' PatternRegistry.add_pattern: every registered pattern runs on the model clock (also a Pattern object built with time options of its own).')
+
+PROPS["C04"]["explanation"] += (' Also under contract (enumerated in full, contracts/c04_words.py): Comparison.parse (every documented spelling of a relation), _EpanetRule.set_priority (the priority is the number written), Control.__init__ (a time control of any relation is checked before the solve, a tank control before and after, every other after). TimeOfDayCondition.evaluate backtracks to the instant for the relations after / at-or-after too. Bounded: the time notations of [CONTROLS] lines and of the [TIMES] section against the instants written.')
+PROPS["C05"]["explanation"] += (' WNTRSimulator._get_cv_controls and _get_pump_controls are under contract as well (which links get internal close / open controls, with which condition class, priority and phase; the status-OPEN companion of a pump-speed control).')
+PROPS["C20"]["explanation"] += (' expected_demand_param has a companion over a demand list built through its real constructor (constant first entry, patterned second; creation and update).')
+PROPS["C13"]["explanation"] += (' The element instances of the from_dict contract carry numbers for every optional attribute (so each becomes an arbitrary value) and a tank mixing model; the feature models cover every mixing model, options set in another order, None entries and a simulated model.')
+PROPS["C09"]["explanation"] += (' WNTRSimulator._initialize_name_id_maps (names and ids are bijective, 0..n-1) is under contract.')
+PROPS["C01"]["explanation"] += (' hydraulics.initialize_results_dict (one empty list per element and table, in registration order, no list shared) is under contract.')
